@@ -195,6 +195,10 @@ def battery(pid):
     if pid in ("C01", "C03"):
         T += [("e2e_unattributed_is_421_and_not_relayed", scenario_rs(attributed=False), "o.status == 421 && o.host_requests.is_empty()", "a direct (unattributed) connection must get 421 and reach no host"),
               ("e2e_traversal_is_404_and_not_relayed", scenario_rs(raw_request="GET /machine/../secret HTTP/1.1\r\nhost: x\r\n\r\n"), "o.status == 404 && o.host_requests.is_empty()", "a path with .. must get 404"),
+              ("e2e_dotdot_inside_a_segment_is_404_and_not_relayed", scenario_rs(raw_request="GET /metadata/instance/..;/identity HTTP/1.1\r\nhost: x\r\n\r\n"), "o.status == 404 && o.host_requests.is_empty()", "a path containing .. (not as a whole segment) must get 404"),
+              ("e2e_dotdot_in_a_name_is_404_and_not_relayed", scenario_rs(raw_request="GET /x..y HTTP/1.1\r\nhost: x\r\n\r\n"), "o.status == 404 && o.host_requests.is_empty()", "a path containing .. must get 404"),
+              ("e2e_three_dots_is_404_and_not_relayed", scenario_rs(raw_request="GET /.../z HTTP/1.1\r\nhost: x\r\n\r\n"), "o.status == 404 && o.host_requests.is_empty()", "a path containing .. must get 404"),
+              ("e2e_non_elevated_wireserver_no_rules_is_403", scenario_rs(elevated=False, rules=None), "o.status == 403 && o.host_requests.is_empty()", "non-elevated caller to WireServer with no rules published must get 403"),
               ("e2e_non_elevated_wireserver_is_403", scenario_rs(elevated=False), "o.status == 403 && o.host_requests.is_empty()", "non-elevated caller to WireServer must get 403"),
               ("e2e_non_elevated_hostga_audit_is_403", scenario_rs(elevated=False, dest=("168.63.129.16", 32526), rules=("audit", "allow")), "o.status == 403 && o.host_requests.is_empty()", "non-elevated caller to HostGAPlugin must get 403 in audit mode too"),
               ("e2e_self_destination_is_403", scenario_rs(dest=("127.0.0.1", 3080)), "o.status == 403 && o.host_requests.is_empty()", "a request whose destination is the proxy listener must get 403"),
@@ -209,6 +213,8 @@ def battery(pid):
         T += [("e2e_one_claims_header_from_the_proxy", scenario_rs(elevated=False, dest=("169.254.169.254", 80), key=True, raw_request=req),
                count("x-ms-azure-host-claims") + ' && o.host_requests[0].contains("\\"isRoot\\": \\"false\\"") && !o.host_requests[0].contains("spoof2")', "exactly one claims header, stating the kernel-attested elevation"),
               ("e2e_one_date_header_from_the_proxy", scenario_rs(elevated=False, dest=("169.254.169.254", 80), key=True, raw_request=req), count("x-ms-azure-host-date") + ' && !o.host_requests[0].contains("1970")', "exactly one date header, not the client's"),
+              ("e2e_one_date_header_from_the_proxy_on_the_exempt_upload_path", scenario_rs(dest=("168.63.129.16", 32526), key=True, raw_request="PUT /vmAgentLog HTTP/1.1\r\nhost: x\r\n" + hdrs.replace('\\"', '"') + "content-length: 3\r\n\r\nabc"),
+               count("x-ms-azure-host-date") + ' && !o.host_requests[0].contains("1970") && ' + count("x-ms-azure-host-claims").split(" && ", 1)[1] + ' && !o.host_requests[0].contains("spoof2")', "the signature-exempt upload path carries exactly one proxy-made date and claims header too"),
               ("e2e_client_authorization_never_reaches_host_when_signed", scenario_rs(elevated=False, dest=("169.254.169.254", 80), key=True, raw_request=req), count("x-ms-azure-host-authorization") + ' && !o.host_requests[0].contains("deadbeef")', "the client's authorization header is replaced by the proxy's")]
     if pid == "C11":
         T += [("e2e_enforce_deny_403_recorded_once", scenario_rs(dest=("169.254.169.254", 80), elevated=False, rules=("enforce", "deny")), "o.status == 403 && o.host_requests.is_empty() && o.failed_summaries == 1", "enforce: 403, nothing relayed, one record"),
